@@ -1051,12 +1051,13 @@ fn num_text(r: &mut Rng, bits: u64) -> String {
         0 => format!("{:e}", x),
         1 => format!("{:E}", x),
         2 => {
-            let s = format!("{}", x);
-            if s.len() < 400 {
-                s
-            } else {
-                serde_json::to_string(&x).unwrap()
+            let mut s = format!("{}", x);
+            if s.len() >= 400 {
+                s = serde_json::to_string(&x).unwrap();
+            } else if !s.contains('.') && r.chance(2, 3) {
+                s.push_str(".0"); // keep it float-typed
             }
+            s
         }
         3 => {
             // more digits than needed (still parses to the same f64 with float_roundtrip)
